@@ -71,6 +71,28 @@ LinePrefixOK(x, c, ws) == LooseEq(x, StrictLP(c, ws, FALSE), FALSE)
 (* the same with Python's wider notion of a line boundary (only consulted for the ambiguity note)         *)
 LinePrefixExoticOK(x, c, ws) == LooseEq(x, StrictLP(c, ws, TRUE), TRUE)
 
+(* ---------------------------------------------------------------------------------------------------- *)
+(* the built-in filter `indent(width, first, blank)` as upstream defines it (>= 2.10): s + "\n" is split with    *)
+(* str.splitlines(); blank: every line but the first gets the indentation; otherwise every NON-EMPTY line but  *)
+(* the first; `first`: the indentation is put in front of the result UNCONDITIONALLY (also when the first line *)
+(* is empty, also for the empty string).  The bundled copy of this filter sits next to lineprefix.             *)
+Spaces(n) == [i \in 1..n |-> 32]
+RECURSIVE JoinWith(_, _, _)
+JoinWith(ls, i, sep) == IF i > Len(ls) THEN <<>> ELSE ls[i] \o (IF i < Len(ls) THEN sep ELSE <<>>) \o JoinWith(ls, i + 1, sep)
+LineTexts(t) == LET ls == Lines(t, TRUE) IN [i \in 1..Len(ls) |-> ls[i][1]]
+Indent(s, width, first, blank) ==
+    LET ind  == Spaces(width)
+        ls   == LineTexts(Append(s, LF))
+        body == IF blank THEN JoinWith(ls, 1, <<LF>> \o ind)
+                ELSE JoinWith([i \in 1..Len(ls) |-> IF i = 1 THEN ls[1] ELSE Pref(ls[i], ind)], 1, <<LF>>)
+    IN IF first THEN ind \o body ELSE body
+(* the slip "the first line follows the rule of the other lines" (negative control of the model)              *)
+IndentFirstLikeOthers(s, width, blank) ==
+    LET ind == Spaces(width)
+        ls  == LineTexts(Append(s, LF))
+    IN IF blank THEN JoinWith([i \in 1..Len(ls) |-> ind \o ls[i]], 1, <<LF>>)
+       ELSE JoinWith([i \in 1..Len(ls) |-> Pref(ls[i], ind)], 1, <<LF>>)
+
 (* I-layer: parser.autoindent takes  prefix = token.value[:-3]  where the begin token's value is what the   *)
 (* lexer alternative `[ \t]*{%\*` / `[ \t]*{{\*` matched: the blanks followed by the three marker characters.   *)
 AutoindentPrefix(tokval) == SubSeq(tokval, 1, Len(tokval) - 3)
